@@ -476,6 +476,8 @@ impl Obj {
 pub struct Body {
     /// suspend on this gate (async bodies) / block on it (plain bodies use `bgate`)
     pub gate: Option<Gate>,
+    /// async bodies: a second await after the first
+    pub gate2: Option<Gate>,
     pub bgate: Option<BGate>,
     /// arbitrary action run inside the operation (nested scheduling calls ...)
     pub action: Option<Arc<dyn Fn() + Send + Sync>>,
@@ -677,6 +679,16 @@ async fn run_async(body: Body, rec: Arc<Rec>, op: OpId, st: Arc<ObjState>, name:
             rt::violation(format!("USE-AFTER-DROP {} resumed on object {} after its value was destroyed", name, st.id));
         }
         // the operation is still exclusive after the await
+        if st.occupancy() != 1 {
+            rt::violation(format!("OVERLAP {} resumed on object {} with occupancy {}", name, st.id, st.occupancy()));
+        }
+    }
+    if let Some(g) = &body.gate2 {
+        g.clone().await;
+        vthread::yield_now();
+        if st.dead.load(AO::SeqCst) != 0 {
+            rt::violation(format!("USE-AFTER-DROP {} resumed on object {} after its value was destroyed", name, st.id));
+        }
         if st.occupancy() != 1 {
             rt::violation(format!("OVERLAP {} resumed on object {} with occupancy {}", name, st.id, st.occupancy()));
         }
